@@ -33,6 +33,9 @@ def polyval(ctx, coeffs, x, derivative=False):
     if not coeffs:
         return ctx.zero
     p = ctx.convert(coeffs[0])
+    if len(coeffs) == 1:
+        # (a constant polynomial: the value is the coefficient, rounded)
+        p = +p
     q = ctx.zero
     for c in coeffs[1:]:
         if derivative:
